@@ -1,23 +1,31 @@
 #!/usr/bin/env python3
 """Copies independently written seeded changes from /tmp/seed-CNN-out/m* into /verif/seeded/,
 re-verifies each (patch applies, baseline 128/128, demo 0 pristine / non-zero patched) and records
-which checks catch it.  Usage: tools/keep_seeds.py [CNN ...]"""
+which checks catch it.  Usage: tools/keep_seeds.py [CNN ...]
+With SEED_INPLACE=1 the arguments are names of kept seeds (CNN-mK): nothing is copied, the kept
+patch (e.g. one re-based onto a later /repo HEAD) is re-verified where it is."""
 import glob, json, os, shutil, subprocess, sys
 ids = sys.argv[1:] or ['C%02d' % i for i in range(1, 21)]
+INPLACE = bool(os.environ.get('SEED_INPLACE'))
 extra = {'C01': ['C10'], 'C06': ['C19', 'C03'], 'C03': ['C19', 'C16', 'C15'], 'C04': ['C18', 'C05', 'C01'], 'C16': ['C12'], 'C08': ['C06']}   # checks of other properties that also exercise the seed's clause
 results = []
 for pid in ids:
-  for src in sorted(glob.glob(f'/tmp/seed-{pid}-out/' + os.environ.get('SEED_GLOB', 'm*'))):
-    name = f'{pid}-{os.path.basename(src)}'
+  if INPLACE:
+    sources, pid = [os.path.join('/verif/seeded', pid)], pid.split('-')[0]
+  else:
+    sources = sorted(glob.glob(f'/tmp/seed-{pid}-out/' + os.environ.get('SEED_GLOB', 'm*')))
+  for src in sources:
+    name = os.path.basename(src) if INPLACE else f'{pid}-{os.path.basename(src)}'
     dst = os.path.join('/verif/seeded', name)
     os.makedirs(dst, exist_ok=True)
     prev_verified = {}
     if os.path.exists(os.path.join(dst, 'meta.json')):
       prev_verified = json.load(open(os.path.join(dst, 'meta.json'))).get('verified', {})
-    for f in ('patch.diff', 'demo.py', 'meta.json'):
-      shutil.copy(os.path.join(src, f), os.path.join(dst, f))
-    for f in glob.glob(os.path.join(src, 'found_by_*.json')):
-      shutil.copy(f, dst)
+    if not INPLACE:
+      for f in ('patch.diff', 'demo.py', 'meta.json'):
+        shutil.copy(os.path.join(src, f), os.path.join(dst, f))
+      for f in glob.glob(os.path.join(src, 'found_by_*.json')):
+        shutil.copy(f, dst)
     checks = [pid] + extra.get(pid, [])
     out = subprocess.run(['python3', '/verif/tools/seed_eval.py', dst] + checks + (
         ['--no-baseline'] if os.environ.get('SEED_NO_BASELINE') else []),
